@@ -262,7 +262,8 @@ def _spec_accepts(kind, s):
 
 
 # -- the registry (stock table / name normalisation) ------------------------------------------------
-REG_NAMES = ["integer", "Integer", "mytype", "MyType", "zcv.dts.wrap", "zcv.dts.nosuch", "no such", "byte-size"]
+REG_NAMES = ["integer", "Integer", "mytype", "MyType", "zcv.dts.wrap", "zcv.dts.Wrap", "zcv.dts.nosuch", "no such",
+             "byte-size"]
 _CONVS = {}
 
 
@@ -293,7 +294,7 @@ def replay_registry(v):
             if want.startswith("stock:"):
                 ok = got is ZConfig.datatypes.stock_datatypes[want[6:]]
             elif want.startswith("import:"):
-                ok = got is dts.wrap
+                ok = got is {"zcv.dts.wrap": dts.wrap, "zcv.dts.Wrap": dts.Wrap}[want[7:]]
             else:
                 ok = got is convs[want]
             if not ok:
@@ -319,7 +320,7 @@ def registry_part(chk, quick):
                "n = %s -> %s" % (tlc.tla_str(n), tlc.tla_str(n.lower() if bk.match(n) else "~bad~"))
                for n in REG_NAMES if "." not in n or True) + "\n"
            "MCIsDotted(n) == n \\in " + tlc.tla_value({n for n in REG_NAMES if "." in n}) + "\n"
-           "MCResolves(n) == n = \"zcv.dts.wrap\"\n")
+           "MCResolves(n) == n \\in {\"zcv.dts.wrap\", \"zcv.dts.Wrap\"}\n")
     with open(os.path.join(tlc.SPEC_DIR, "mc", "MC_ZRegistry.tla")) as f:
         mod = f.read().replace("@GENERATED@", gen)
     cfg = flow.cfg_text(constants={"MaxOps": 3 if quick else 4, "Convs": '{"f1", "f2"}'},
